@@ -24,15 +24,18 @@ def run(ctx):
     # 2. behaviours: transition covers of small instances (every transition out of every distinct reachable state),
     #    every (input sequence, permutation) pair for two replicas, plus seeded simulations of larger instances
     suf = ".cfg" if q else "_thorough.cfg"
-    cap = (2500, 2500, 1000) if q else (12000, 10000, 5000)
+    cap = (1500, 1200, 600) if q else (12000, 10000, 5000)
     parts = []
     for name, n in zip(("tree", "db", "oi"), cap):
         allb = drop_prefixes(behaviours(ctx, SPEC, "MC_RevTree", "Beh_RevTree_%s%s" % (name, suf), timeout=3000))
         if not q and name != "oi":   # the thorough tier also replays the whole small cover
             allb += drop_prefixes(behaviours(ctx, SPEC, "MC_RevTree", "Beh_RevTree_%s.cfg" % name, timeout=3000))
         parts.append((name, len(allb), sample(rnd, allb, n)))
-    parts.append(("sim", None, behaviours(ctx, SPEC, "MC_RevTree", "Sim_RevTree.cfg", num=400 if q else 4000, depth=8, timeout=1800)))
-    parts.append(("simoi", None, behaviours(ctx, SPEC, "MC_RevTree", "Sim_RevTree_oi.cfg", num=300 if q else 3000, depth=8, timeout=1800)))
+    # (TLC's simulator evaluates the exporting invariant on every successor of the last step: sample them)
+    sims = behaviours(ctx, SPEC, "MC_RevTree", "Sim_RevTree.cfg", num=120 if q else 1500, depth=8, timeout=1800)
+    parts.append(("sim", len(sims), sample(rnd, sims, 300 if q else 6000)))
+    sims = behaviours(ctx, SPEC, "MC_RevTree", "Sim_RevTree_oi.cfg", num=200 if q else 3000, depth=8, timeout=1800)
+    parts.append(("simoi", len(sims), sample(rnd, sims, 150 if q else 3000)))
     behs = [b for _, _, bs in parts for b in bs]
     ctx.notes.append("behaviours replayed: " + ", ".join("%s %d%s" % (nm, len(bs), (" of %d" % tot) if tot else "") for nm, tot, bs in parts))
     replay_and_validate(ctx, behs)
